@@ -194,11 +194,29 @@ func (h *orderHarness) Gen(r *Rand, tier string, clean bool) any {
 		t := u[r.Intn(len(u))]
 		u = append(u, TSpec{t[0], t[1], []int{6, 7, 8, 9, 10, 11, 26, 27, 21, 22}[r.Intn(10)]})
 	}
+	if r.Bool() {
+		// anchors within one second, printed with different precision
+		for _, pi := range []int{2, 9, 10, 11} {
+			if r.Chance(0.7) {
+				t := u[r.Intn(len(u))]
+				u = append(u, TSpec{t[0], pi, t[2]})
+			}
+		}
+	}
 	c := &OrderCase{Graphs: genGraphs(r, dedupSpecs(u), 2), Knobs: genKnobs(r)}
 	o := sopts{qopts: qopts{clean: true, maxClauses: 2, aliases: 0.3, bounds: 0}, group: 0.25}
+	if r.Chance(0.3) {
+		o.maxClauses, o.aliases = 1, 0.1 // plain single clause queries: the LIMIT push-down path
+	}
 	st := genSelect(r, u, graphNames(c.Graphs), o)
 	c.Q = st.Q
 	c.Q.OrderBy, c.Q.Limit = nil, ""
+	if r.Chance(0.35) {
+		// HAVING is part of the base query: ORDER BY / LIMIT on top must not change which rows qualify
+		col := outName(c.Q.Proj[r.Intn(len(c.Q.Proj))])
+		c.Q.Having = []string{col + ` > "0"^^type:int64`, col + ` < "2"^^type:float64`, col + " = " + col, "not (" + col + " = " + col + ")",
+			col + ` = "a"^^type:text`, col + ` > "1"^^type:int64`}[r.Intn(6)]
+	}
 	outs := []string{}
 	for _, p := range c.Q.Proj {
 		outs = append(outs, outName(p))
